@@ -13,6 +13,12 @@ Three exhaustive enumerations against the real engine (oracles: models/limits.py
     one-shot iterator} with sizes {N-1, N, N+1} per level x N x the 4 output
     conversion combinations: `$` raises CollectionTooLargeException iff some
     level exceeds N, otherwise returns the canonical image.
+(b') dict keys: a dict whose KEY is a collection (tuple of N-1, N, N+1 elements, one-shot iterator,
+    endless source) inside 0..2 containers, as host data and built by an expression, under the 4
+    conversion combinations and the legacy engine (tuple keys survive when tuples are not converted).
+(w) ways: a subset of (a), (b), (c) with N / Q supplied per expression (engine(text, options)) and by
+    engine.copy(options), on an engine created without or with looser options: same observations as
+    with factory.create(options).
 (c) memory quota: every payload of a private context is tapped; all chains of
     growth steps over base sizes x Q: no argument and no returned value has
     own size > Q, the repetition payloads never produce an object larger than
@@ -41,7 +47,8 @@ RULE = ('(a) one case per distinct (call text, source flavour, N): call texts ar
         'registered definition x every source-admitting position x the typed corpus product; non-trivial '
         'when the source was pulled at least once; (b) one case per (shape, N, conversion options), '
         'non-trivial when in domain (no unhashable set member, which is C10); (c) one case per '
-        '(chain, base size, Q), non-trivial when at least one tapped payload ran')
+        '(chain, base size, Q), non-trivial when at least one tapped payload ran; (b\') one case per (key shape, '
+        'N, engine, form); (w) one case per (subset case, way of supplying the options)')
 ASSUMPTIONS = ['"own size" is sys.getsizeof(value, 0), the accounting the options document; memory held by '
                'nested or lazily produced objects is outside the statement',
                'a lazy sequence is "handed to a library function" when it is bound directly to a parameter '
@@ -54,7 +61,9 @@ BOUNDS = {
     'quick': '(a) all definitions x source positions x corpus x 2 source flavours x N in {0,1,2,5}; '
              '(b) depth <= 3, N in {-1,0,1,2,5} x 4 conversion combos; '
              '(c) chains of <= 2 steps x base sizes {0,1,2,10,1000} x Q in {200,1000,10000} (+ no-quota control), '
-             'chains whose unconstrained length exceeds 2e6 are outside the space',
+             'chains whose unconstrained length exceeds 2e6 are outside the space; '
+             "(b') 13 wrappings x 7 keys x N x 6 engines x {data, expression}; (w) hand-written templates + every 10th call "
+             'text x N x 2 tightening ways, shapes of depth <= 2 x 3 ways, 1-step chains x Q x 3 ways',
     'thorough': '(a) N in {0,1,2,5,10,100}; (b) N in {-1,0,1,2,5,10,100}; (c) chains of <= 3 steps',
 }
 JOB_LIMIT = {'quick': 600, 'thorough': 3600}
@@ -67,6 +76,29 @@ MAX_STEPS = {'quick': 2, 'thorough': 3}
 VOLUME_BOUND = 2 * 10 ** 6      # elements / characters of any unconstrained intermediate value
 CONTROL_VOLUME = 3000           # the no-quota control really builds the values
 PEAK_FLOOR = 4096               # products at least this large are also watched with tracemalloc
+
+
+# ---------------------------------------------------------------------------
+# ways of handing N and Q to the library (doc/source/extending_yaql.rst: options go to factory.create();
+# the engine can be cloned with other options by engine.copy(); engine(expression, options) applies
+# options to one expression).  Every way must enforce the same limits.
+# ---------------------------------------------------------------------------
+LOOSE = {'yaql.limitIterators': 1000, 'yaql.memoryQuota': 10 ** 7}
+WAYS = ('call', 'call-tighten', 'copy-tighten')
+
+
+def statement(text, opts, way='create', delegates=False, legacy=False):
+    """A parsed statement that must run under `opts`.
+    create: factory.create(opts)(text);  call: an engine created WITHOUT options, options given per
+    expression;  call-tighten / copy-tighten: an engine created with the much looser LOOSE options,
+    tightened per expression / by engine.copy()."""
+    if way == 'create' or not opts:
+        return yq.parse(text, opts, delegates, legacy)
+    loose = {k: v for k, v in LOOSE.items() if k in opts}      # loosen only what this case tightens
+    base = yq.engine(loose if way.endswith('tighten') else None, delegates, legacy)
+    if way.startswith('call'):
+        return base(text, options=dict(opts))
+    return base.copy(dict(opts))(text)
 
 
 # ---------------------------------------------------------------------------
@@ -340,13 +372,13 @@ def _tick_context(budget):
     return ctx, count
 
 
-def run_limit(text, flavour, n):
+def run_limit(text, flavour, n, way='create'):
     """Execute one (a)-case: $s (and $t, for the templates that use two) are
     fresh endless sources.  Returns the observation dict."""
     srcs = [Tap(n, FLAVOURS[flavour]), Tap(n, FLAVOURS[flavour])]
     ctx, ticks = _tick_context(n + HORIZON_SLACK)
     ctx['s'], ctx['t'] = srcs
-    st = yq.parse(text, {'yaql.limitIterators': n}, allow_delegates=True)
+    st = statement(text, {'yaql.limitIterators': n}, way, delegates=True)
     obs = {'horizon': False}
     try:
         v = st.evaluate(context=ctx)
@@ -434,11 +466,11 @@ def job_limit(tier, k, nchunks):
 OPTION_COMBOS = [(t, s) for t in (True, False) for s in (False, True)]
 
 
-def run_shape(shape, n, t2l, s2l):
+def run_shape(shape, n, t2l, s2l, way='create'):
     opts = {'yaql.limitIterators': n, 'yaql.convertTuplesToLists': t2l, 'yaql.convertSetsToLists': s2l}
     doc = M.build(shape)
     try:
-        return ('v', yq.evaluate('$', data=doc, options=opts))
+        return ('v', statement('$', opts, way).evaluate(data=doc, context=yq.root().create_child_context()))
     except Exception as e:
         return ('e', type(e).__name__, str(e)[:120])
 
@@ -491,6 +523,163 @@ def job_shapes(tier, n, k, nchunks):
     if k == 0 and n == 2:
         res.sample({'shape': [['iter', 3], ['list', 2]], 'limitIterators': 2,
                     'observed': repr(_short(run_shape((('iter', 3), ('list', 2)), 2, True, False)))})
+    return res
+
+
+# ---------------------------------------------------------------------------
+# (b') collections used as dict keys (tuple keys survive when tuples are not converted: option or legacy engine)
+# ---------------------------------------------------------------------------
+KEY_ENGINES = [(t, s, False) for t, s in OPTION_COMBOS] + [(False, False, True), (False, True, True)]   # (t2l, s2l, legacy)
+
+
+def _key_text(wrappers):
+    """The same shape built by an expression around the key held in $k."""
+    text = 'dict($k => 1)'
+    for w in reversed(wrappers):
+        text = {'list': '[%s]', 'dict': 'dict(z => %s)', 'iter': '[%s].select($)'}[w] % text
+    return text
+
+
+def run_key_shape(kshape, n, t2l, s2l, legacy, form='data'):
+    """form 'data': the whole document is host data and the expression is `$`;
+    form 'expr': only the key is host data, the containers are built by the expression."""
+    opts = {'yaql.limitIterators': n, 'yaql.convertSetsToLists': s2l}
+    if not legacy:
+        opts['yaql.convertTuplesToLists'] = t2l      # the legacy factory forces False
+    src = Tap(n)
+    ctx = yq.root(legacy=legacy).create_child_context()
+    try:
+        if form == 'data':
+            obs = ('v', yq.parse('$', opts, legacy=legacy).evaluate(data=M.key_build(kshape, src), context=ctx))
+        else:
+            ctx['k'] = yutils.convert_input_data(next(iter(M.key_build(((), kshape[1], kshape[2]), src))))
+            obs = ('v', yq.parse(_key_text(kshape[0]), opts, legacy=legacy).evaluate(context=ctx))
+    except yq.Horizon:
+        obs = ('e', 'HORIZON', '')
+    except Exception as e:
+        obs = ('e', type(e).__name__, str(e)[:120])
+    return obs, src.pulls
+
+
+def judge_key_shape(kshape, n, t2l, obs, pulls):
+    """'ood' | None | (key, detail)"""
+    wrappers, kind, size = kshape
+    where = 'kind=%s depth=%d' % (kind, len(wrappers))
+    if pulls > n + 1 >= 0 or (obs[0] == 'e' and obs[1] == 'HORIZON'):
+        return ('unlimited-dict-key ' + where, 'a lazy sequence used as a dict key was pulled %d times (limit %d), observed %r'
+                % (pulls, n, _short(obs)))
+    if M.key_too_large(kshape, n):
+        if obs[0] == 'e' and obs[1] == 'CollectionTooLargeException':
+            return None
+        return ('oversized-dict-key-accepted ' + where,
+                'the result holds a dict whose key is a %s of %s elements (and %d one-element containers around it), '
+                'limit %d: expected CollectionTooLargeException, observed %r'
+                % (kind, 'endlessly many' if size is None else size, len(wrappers) + 1, n, _short(obs)))
+    img = M.key_image(kshape, t2l)
+    if img is None:
+        return 'ood'
+    if obs[0] == 'e':
+        return ('spurious-refusal dict-key ' + where, 'nothing exceeds %d, observed %r' % (n, obs))
+    if not M.same_image(obs[1], img):
+        return ('wrong-image dict-key ' + where, 'expected %r observed %r' % (img, obs[1]))
+    return None
+
+
+def job_keys(tier):
+    _safety()
+    res = Result()
+    for n in [-1] + NS[tier]:
+        for kshape in M.key_shapes(n):
+            for (t2l, s2l, legacy), form in itertools.product(KEY_ENGINES, ('data', 'expr')):
+                case = {'kind': 'key-shape', 'wrappers': list(kshape[0]), 'key': kshape[1], 'size': kshape[2],
+                        'n': n, 't2l': t2l, 's2l': s2l, 'legacy': legacy, 'form': form}
+                core.CURRENT_CASE[0] = case
+                res.case(('key-shape', kshape, n, t2l, s2l, legacy, form))
+                obs, pulls = run_key_shape(kshape, n, t2l, s2l, legacy, form)
+                res.evaluations += 1
+                res.transitions += 1
+                verdict = judge_key_shape(kshape, n, t2l and not legacy, obs, pulls)
+                if verdict == 'ood':
+                    res.out_of_domain += 1
+                    res.outcomes['key-shape ood: the key would become an unhashable list (C10)'] += 1
+                    continue
+                res.nontrivial += 1
+                res.outcomes['key-shape %s %s' % (kshape[1], 'value' if obs[0] == 'v' else obs[1])] += 1
+                if verdict:
+                    res.fail(verdict[0], case, verdict[1])
+    res.sample({'key-shape': [['list'], 'tuple', 3], 'limitIterators': 2, 'convertTuplesToLists': False,
+                'observed': repr(_short(run_key_shape((('list',), 'tuple', 3), 2, False, False, False)[0]))})
+    return res
+
+
+# ---------------------------------------------------------------------------
+# (w) the same limits through the other ways of supplying options: a representative subset of (a), (b), (c)
+# ---------------------------------------------------------------------------
+def _same_limit_obs(a, b):
+    return (a['out'], a['pulls'], a['ticks'], a.get('max')) == (b['out'], b['pulls'], b['ticks'], b.get('max'))
+
+
+def job_ways(tier, part):
+    """The reference is the factory.create(options) run, which the main enumerations judge against the
+    models; here every other way must give the same observation."""
+    _safety()
+    res = Result()
+    if part == 'limit':
+        texts = EXTRA_TEXTS + [c[0] for c in call_texts()[0]][::10]
+        for text in texts:
+            for n in NS[tier]:
+                ref = run_limit(text, 'int', n)
+                for way in WAYS[1:]:      # only tightening ways: with no base limit at all a lambda-driven generator is endless
+                    case = {'kind': 'way-limit', 'text': text, 'n': n, 'way': way}
+                    core.CURRENT_CASE[0] = case
+                    res.case(('way-limit', text, n, way))
+                    obs = run_limit(text, 'int', n, way)
+                    res.evaluations += 2
+                    res.transitions += 1
+                    res.nontrivial += 1 if obs['pulls'] or obs['ticks'] else 0
+                    res.outcomes['way=%s limit %s' % (way, 'same as factory.create' if _same_limit_obs(obs, ref) else 'DIFFERS')] += 1
+                    if not _same_limit_obs(obs, ref):
+                        res.fail('options-way-differs way=%s option=yaql.limitIterators' % way, case,
+                                 '%s with limitIterators=%d given by %s: outcome %s after %d pulls; given to factory.create(): %s after %d pulls'
+                                 % (text, n, way, obs['out'], obs['pulls'], ref['out'], ref['pulls']), size=len(text) + 10 * n)
+    elif part == 'shape':
+        for n in NS[tier]:
+            for shape in M.shapes(n, 2):
+                if not M.buildable(shape) or M.unhashable_member(shape, True, False):
+                    continue
+                for way in WAYS:
+                    case = {'kind': 'way-shape', 'shape': [list(l) for l in shape], 'n': n, 'way': way}
+                    core.CURRENT_CASE[0] = case
+                    res.case(('way-shape', shape, n, way))
+                    obs = run_shape(shape, n, True, False, way)
+                    res.evaluations += 1
+                    res.transitions += 1
+                    res.nontrivial += 1
+                    bad = judge_shape(shape, n, True, False, obs)
+                    res.outcomes['way=%s shape %s' % (way, 'value' if obs[0] == 'v' else obs[1])] += 1
+                    if bad:
+                        res.fail('options-way-differs way=%s option=yaql.limitIterators' % way, case,
+                                 'result shape %r, limitIterators=%d given by %s: %s' % (shape, n, way, bad[1]))
+    else:
+        for chain in M.chains(1, BASE_SIZES):
+            for q in QUOTAS:
+                ref, rlog = run_quota(chain, q)
+                for way in WAYS:
+                    case = {'kind': 'way-quota', 'base': chain[0], 'size': chain[1], 'steps': list(chain[2]), 'q': q, 'way': way}
+                    core.CURRENT_CASE[0] = case
+                    res.case(('way-quota', chain, q, way))
+                    obs, log = run_quota(chain, q, way)
+                    res.evaluations += 2
+                    res.transitions += log['calls']
+                    res.nontrivial += 1
+                    same = (obs[0], obs[1] if obs[0] == 'e' else None, [b[0] for b in log['bad']]) == \
+                        (ref[0], ref[1] if ref[0] == 'e' else None, [b[0] for b in rlog['bad']])
+                    res.outcomes['way=%s quota %s' % (way, 'same as factory.create' if same else 'DIFFERS')] += 1
+                    if not same:
+                        res.fail('options-way-differs way=%s option=yaql.memoryQuota' % way, case,
+                                 '%s base size %d memoryQuota=%d given by %s: %s (largest argument %d bytes); given to factory.create(): %s'
+                                 % (M.chain_text(chain), chain[1], q, way, 'value' if obs[0] == 'v' else obs[1], log['maxarg'],
+                                    'value' if ref[0] == 'v' else ref[1]))
     return res
 
 
@@ -591,13 +780,13 @@ def _wrap(name, fd):
     return tap
 
 
-def run_quota(chain, q):
+def run_quota(chain, q, way='create'):
     ctx = tapped_context().create_child_context()
     kind, size, _steps = chain
     text = M.chain_text(chain)
     opts = {'yaql.memoryQuota': q} if q else {}
     log = {'q': q, 'calls': 0, 'maxarg': 0, 'maxrep': 0, 'reps': 0, 'traced': 0, 'bad': []}
-    st = yq.parse(text, opts)
+    st = statement(text, opts, way)
     ctx['b'] = yutils.convert_input_data(M.base_value(kind, size))
     _tapped['log'] = log
     try:
@@ -741,6 +930,9 @@ def jobs(tier, seed):
     for k in range(nq):
         out.append(('quota-%02d' % k, 'job_quota', (tier, k, nq)))
     out.append(('quota-literals', 'job_quota_literals', ()))
+    out.append(('key-shapes', 'job_keys', (tier,)))
+    for part in ('limit', 'shape', 'quota'):
+        out.append(('ways-' + part, 'job_ways', (tier, part)))
     return out
 
 
@@ -758,6 +950,29 @@ def replay(case):
         obs, log = run_text_under_quota(text, case['q'])
         return {'observed': repr((obs[:2], log['bad'][:1])), 'expected': 'MemoryQuotaExceededException iff the literal is larger than the quota; never handed to a function when larger',
                 'ok': not log['bad'] and not (sys.getsizeof('a' * case['n']) > case['q'] and obs[0] == 'v' and case['template'].startswith(('len(', 'isString(', 'str(')))}
+    if k == 'key-shape':
+        kshape = (tuple(case['wrappers']), case['key'], case['size'])
+        obs, pulls = run_key_shape(kshape, case['n'], case['t2l'], case['s2l'], case['legacy'], case.get('form', 'data'))
+        bad = judge_key_shape(kshape, case['n'], case['t2l'] and not case['legacy'], obs, pulls)
+        return {'observed': repr((_short(obs), 'pulls=%d' % pulls)),
+                'expected': 'CollectionTooLargeException' if M.key_too_large(kshape, case['n']) else repr(M.key_image(kshape, case['t2l'] and not case['legacy'])),
+                'ok': bad in (None, 'ood'), 'key': bad[0] if isinstance(bad, tuple) else None}
+    if k == 'way-limit':
+        ref = run_limit(case['text'], 'int', case['n'])
+        obs = run_limit(case['text'], 'int', case['n'], case['way'])
+        return {'observed': _strip(obs), 'expected': _strip(ref), 'ok': _same_limit_obs(obs, ref)}
+    if k == 'way-shape':
+        shape = tuple((a, b) for a, b in case['shape'])
+        obs = run_shape(shape, case['n'], True, False, case['way'])
+        bad = judge_shape(shape, case['n'], True, False, obs)
+        return {'observed': repr(_short(obs)), 'expected': 'CollectionTooLargeException' if M.too_large(shape, case['n'])
+                else repr(M.image(shape, True, False)), 'ok': bad is None}
+    if k == 'way-quota':
+        chain = (case['base'], case['size'], tuple(case['steps']))
+        ref, rlog = run_quota(chain, case['q'])
+        obs, log = run_quota(chain, case['q'], case['way'])
+        return {'observed': (obs[0] == 'v' and 'value') or obs[1], 'expected': (ref[0] == 'v' and 'value') or ref[1],
+                'ok': (obs[0], obs[0] == 'e' and obs[1]) == (ref[0], ref[0] == 'e' and ref[1])}
     if k == 'limit':
         obs = run_limit(case['text'], case['flavour'], case['n'])
         bad = judge_limit(case['text'], case['n'], obs)
